@@ -13,7 +13,7 @@ import GB.Base.Bytes
   The AST (`Tmpl`) is what `gwbased.Parse` returns; parsing itself is property C20's model.
   Two matchers are defined: the opcode interpreter over the compiled pattern (`matchAndEscape`, the code),
   and `matchSegs`, a structural matcher over the AST; `Proofs.lean` shows they agree
-  (`matchAndEscape_compile`) and that `matchSegs` decides the declarative relation of `Spec.lean`.
+  (`matchAndEscape_compile`, ProofsResolve.lean) and that `matchSegs` decides the declarative relation of `Spec.lean`.
 -/
 namespace GB.C03
 
